@@ -449,9 +449,9 @@ class LiveMedia(MediaRequestBase):
             seg_num, mod_segment, origin_time = representation.calculate_segment_number_and_time(
                 seg_time, seg_num)
             logging.debug('segment=%d mod=%d origin=%d', seg_num, mod_segment, origin_time)
-            if seg_time is not None:
-                # the segment number derived from a $Time$ request counts from zero,
-                # not from start_number
+            if seg_time is not None and timing.mode == 'live':
+                # the segment number derived from a live $Time$ request counts from
+                # zero, not from start_number
                 first -= representation.start_number
                 last -= representation.start_number
         except ValueError as err:
